@@ -13,7 +13,7 @@ class ExportConfigJSON(ExportConfig):
         super().__init__(env, **kwargs)
 
     def parse(self, units:bool = True, **kwargs):
-        data = self.data
+        data = dict(self.data)   # the selection itself stays as it is: parse() may be called again with other options
         for key in self.data.keys():
             if isinstance(data[key], tuple):
                 if units:
